@@ -5,6 +5,7 @@ pub mod c01;
 pub mod c02;
 pub mod c03;
 pub mod c04;
+pub mod c08;
 pub mod c12;
 pub mod c13;
 pub mod c16a;
@@ -23,6 +24,7 @@ pub fn all() -> Vec<Prop> {
         Prop { info: &c03::INFO, run: c03::run, replay: c03::replay },
         Prop { info: &c04::INFO, run: c04::run, replay: c04::replay },
         Prop { info: &c02::INFO10, run: c02::run10, replay: c02::replay10 },
+        Prop { info: &c08::INFO, run: c08::run, replay: c08::replay },
         Prop { info: &c12::INFO, run: c12::run, replay: c12::replay },
         Prop { info: &c13::INFO, run: c13::run, replay: c13::replay },
         Prop { info: &c13::INFO14, run: c13::run14, replay: c13::replay14 },
